@@ -196,6 +196,12 @@ def check(ctx: Ctx):
         check_group_specifications(ctx)
     except (Undecided, AnchorMissing) as e:
         ctx.undecided("R12.6", None, None, "R12.6:check_group_specifications", f"{type(e).__name__}: {e}")
+    # results of later evaluations (another group, a flipped copy, the exchanged pair, a second
+    # threshold) are only meaningful if no step writes into the caller's arrays (R15.8)
+    from . import c15 as _c15
+    from . import c03 as _c03
+
+    _c03._guarded(ctx, "R15.8", _c15.check_param_aliasing)
 
 
 _E = "panoptica/panoptica_evaluator.py"
